@@ -293,6 +293,13 @@ func genCollisions(r *RNG) []Op {
 		}
 		if scope == "els" {
 			out = append(out, Op{K: "AllowElements", Names: els})
+			// one call binding several pairs, then different rules for single members of the group
+			grp := subset(r, []string{"p", "div", "span", "td", "th", "my-el"}, 2, 3)
+			out = append(out, Op{K: "AllowAttrs", Names: []string{name, "lang"}, Re: r.Pick(valuePatterns), Scope: "els", Els: grp})
+			for _, m := range grp {
+				out = append(out, Op{K: "AllowAttrs", Names: []string{name}, Re: r.Pick(valuePatterns), Scope: "els", Els: []string{m}})
+			}
+			out = append(out, Op{K: "AllowElements", Names: grp})
 		}
 	}
 	if r.Bool(0.6) {
@@ -402,13 +409,24 @@ func probesFor(r *RNG, all []Op, fresh string) [][]byte {
 		return ms
 	}
 	elsOf := func(o Op) []string {
+		var out []string
 		switch o.Scope {
 		case "els":
-			return o.Els
+			out = append(out, o.Els...)
 		case "elsre":
-			return matchEls(o.ElRe)
+			out = append(out, matchEls(o.ElRe)...)
+		default:
+			out = append(out, "p", "my-el", "a")
 		}
-		return []string{"p", "my-el", "a"}
+		switch o.Scope2 {
+		case "els":
+			out = append(out, o.Els2...)
+		case "elsre":
+			out = append(out, matchEls(o.ElRe2)...)
+		case "glob":
+			out = append(out, "p", "my-el", "a")
+		}
+		return out
 	}
 	valsOf := func(re string) []string {
 		if v, ok := valueSamples[re]; ok {
@@ -571,6 +589,7 @@ func caseMutOps(r *RNG, ops []Op) ([]Op, int) {
 		case "AllowAttrs", "AllowStyles":
 			c.Names = mut(o.Names)
 			c.Els = mut(o.Els)
+			c.Els2 = mut(o.Els2)
 		case "AllowNoAttrs":
 			c.Els = mut(o.Els)
 		}
